@@ -5,6 +5,7 @@ import (
 	"fmt"
 	"os"
 	"sort"
+	"strings"
 
 	"github.com/cbehopkins/gkvlite"
 )
@@ -80,6 +81,8 @@ func c16Mangler(id int, seed uint64) gkvlite.BlockMangler {
 }
 
 // runC16 returns "" when the property holds on the case.
+var c16ModelCompared int
+
 func runC16(c c16Case) (res string) {
 	w := &World{Timeout: 60e9}
 	return w.guard(func() string {
@@ -126,9 +129,11 @@ func runC16(c c16Case) (res string) {
 		}
 		count := map[string]int{}
 		total := 0
+		var order []string
 		vis := func(i *gkvlite.Item, depth uint64) bool {
 			count[string(i.Key)]++
 			total++
+			order = append(order, string(i.Key))
 			if c.WV && c.Mode == "block" && string(i.Val) != "v"+string(i.Key) {
 				count["<bad value for "+string(i.Key)+">"]++
 			}
@@ -158,6 +163,31 @@ func runC16(c c16Case) (res string) {
 				bad = append(bad[:4], fmt.Sprintf("... %d more", len(bad)-4))
 			}
 			return fmt.Sprintf("n=%d deliveries=%d: %v", c.N, total, bad)
+		}
+		// the exact delivery order predicted by the Coq model Blocks.block_visit (deterministic manglers)
+		if c.Mode == "block" && c.N > 0 && (c.Mangler == 0 || c.Mangler == 1 || c.Mangler == 2 || c.Mangler == 4) {
+			mg := map[int]string{0: "id", 1: "id", 2: "reverse", 4: "rotate"}[c.Mangler]
+			resp, err := getModel().request(fmt.Sprintf("blockvisit %s %d", mg, c.N))
+			if err == nil {
+				sorted := make([]string, len(keys))
+				for i, k := range keys {
+					sorted[i] = string(k)
+				}
+				sort.Strings(sorted)
+				pos := map[string]int{}
+				for i, k := range sorted {
+					pos[k] = i
+				}
+				var got []string
+				for _, k := range order {
+					got = append(got, fmt.Sprint(pos[k]))
+				}
+				g := "b " + strings.Join(got, " ")
+				c16ModelCompared++
+				if g != resp {
+					return "MODEL-ORDER: delivery order differs from Blocks.block_visit: got " + trunc(g, 120) + " want " + trunc(resp, 120)
+				}
+			}
 		}
 		return ""
 	})
@@ -212,7 +242,7 @@ func checkC16(rep *Report, rng *Rng, tier string) {
 				if c.N == 0 {
 					key = "empty-collection"
 				}
-				rep.Violation(key, false, map[string]interface{}{"case": c, "observed": r, "expected": "Len()==n / every item delivered exactly once"})
+				rep.Violation(key, strings.HasPrefix(r, "MODEL-ORDER"), map[string]interface{}{"case": c, "observed": r, "expected": "Len()==n / every item delivered exactly once (MODEL-ORDER: order predicted by the Coq model Blocks.block_visit, an auxiliary correspondence)"})
 				if len(rep.Violations) >= 4 {
 					rep.Extra["modes"] = hist
 					return
@@ -222,6 +252,7 @@ func checkC16(rep *Report, rng *Rng, tier string) {
 	}
 	rep.Extra["modes"] = hist
 	rep.Extra["sizes"] = len(sizes)
+	rep.Extra["delivery_orders_compared_with_model"] = c16ModelCompared
 }
 
 func replayC16(path string) int {
